@@ -66,13 +66,18 @@ FBeh(d) == [k |-> "beh", d |-> d]
 FWhile(c, s) == [k |-> "while", c |-> c, s |-> s]
 FMod(m, start, n, u, c) == [k |-> "mod", m |-> m, start |-> start, n |-> n, u |-> u, c |-> c]
 FIdle == [k |-> "idle"]
-FShuf(items) == [k |-> "shuf", items |-> items]
+FShuf(items, sk) == [k |-> "shuf", items |-> items, sk |-> sk]   \* sk: the items are scenarios (compose block)
 FPar(subs) == [k |-> "par", subs |-> subs]      \* `do S1, S2` in a compose block: the running sub-scenario instances
 FTry(hs) == [k |-> "try", hs |-> hs, act |-> 0, saved |-> [i \in 0..Len(hs) |-> <<>>], began |-> {}]
 
 \* a coroutine: control stack, events emitted during the current resume, signal
 \*   sig: "run" (keep going) "yield" "done" "terminate" "termsim" "reject" "pick"
-NewCor(st) == [st |-> st, out |-> <<>>, sig |-> "run", acts |-> <<>>, chk |-> FALSE, opts |-> <<>>, pk |-> "none"]
+\*   om/orc/wl: oracle mode (compose blocks and monitors): random picks are read from the script `orc`
+\*   guessed by the enclosing action, their weights logged in `wl` (see AskPick)
+NewCor(st) == [st |-> st, out |-> <<>>, sig |-> "run", acts |-> <<>>, chk |-> FALSE, opts |-> <<>>, pk |-> "none",
+               om |-> FALSE, orc |-> <<>>, wl |-> <<>>]
+NewCorO(st) == [NewCor(st) EXCEPT !.om = TRUE]
+OrcFail == {"orcshort", "orcbad"}    \* the guessed script is too short / names an alternative that does not exist
 
 Top(c) == c.st[Len(c.st)]
 Pop(c) == [c EXCEPT !.st = SubSeq(c.st, 1, Len(c.st) - 1)]
@@ -174,10 +179,10 @@ UnwindReturnImpl(c, k) ==
 (* (signal "done" when it has no compose block), its monitors.  Sub-scenarios invoked by   *)
 (* `do S1, S2` live in a "par" frame on top of the invoking compose coroutine.              *)
 Sdef(q, s) == Cases[q].sdefs[s]
-NewMon(q, d) == NewCor(<<FBeh(d), FSeq(Def(q, d).body)>>)
+NewMon(q, d) == NewCorO(<<FBeh(d), FSeq(Def(q, d).body)>>)
 NewInst(q, s) ==
   [s |-> s, el |-> 0, on |-> TRUE,
-   cor |-> IF Sdef(q, s).hascompose THEN NewCor(<<FSeq(Sdef(q, s).compose)>>) ELSE Sig(NewCor(<<>>), "done"),
+   cor |-> IF Sdef(q, s).hascompose THEN NewCorO(<<FSeq(Sdef(q, s).compose)>>) ELSE Sig(NewCor(<<>>), "done"),
    mons |-> [i \in 1..Len(Sdef(q, s).monitors) |-> NewMon(q, Sdef(q, s).monitors[i])]]
 StopInst(I) == [I EXCEPT !.on = FALSE, !.mons = <<>>, !.cor = Sig(NewCor(<<>>), "done")]
 SubsOf(I) == IF I.cor.st # <<>> /\ Top(I.cor).k = "par" THEN Top(I.cor).subs ELSE <<>>
@@ -190,37 +195,68 @@ StartSubs(q, c, ss, tt) ==
   IF SubGuardsOK(q, ss, tt) THEN Push(c, FPar([i \in 1..Len(ss) |-> NewInst(q, ss[i])]))
   ELSE Sig(c, "guardpre")
 
-RECURSIVE Micro(_, _, _), Run(_, _, _), ScenStep(_, _, _), StepSubs(_, _, _, _)
+\* ---- random picks
+\* enabled scenario items of a choose/shuffle in a compose block: <<s, w>> whose preconditions hold now
+SEnabled(q, items, tt) == SelectSeq(items, LAMBDA it : AllTrue(q, Sdef(q, it[1]).pre, tt))
+PickCount(c) == IF c.pk = "rand" THEN c.opts[2] - c.opts[1] + 1 ELSE Len(c.opts)
+PickWeight(c, i) == IF c.pk = "rand" THEN Rat!Of(1, c.opts[2] - c.opts[1] + 1)
+                    ELSE Rat!Of(c.opts[i][2], SumW(c.opts))
+\* the coroutine after alternative i of its pending pick has been taken (one micro-step)
+PickStep(q, c, i, tt) ==
+  LET c0 == [c EXCEPT !.sig = "run", !.opts = <<>>, !.pk = "none"] IN
+  IF c.pk = "rand" THEN Emit(c0, <<"rnd", c.opts[3], c.opts[1] + i - 1, tt>>)
+  ELSE LET it == c.opts[i]
+           c1 == IF c0.st # <<>> /\ Top(c0).k = "shuf"
+                 THEN SetTop(c0, [Top(c0) EXCEPT !.items = SelectSeq(Top(c0).items, LAMBDA x : x # it)])
+                 ELSE c0
+       IN IF c.pk = "sitems" THEN StartSubs(q, c1, <<it[1]>>, tt) ELSE StartBeh(q, c1, it[1], tt)
+(* A random pick among the options `opts`.  A behaviour suspends with signal "pick" and the    *)
+(* action Pick resumes it with each alternative.  A compose block or monitor (oracle mode) runs *)
+(* inside the recursive walk over the scenario tree, so the alternative is read from the script  *)
+(* guessed by ScenarioStep / MonitorResume, which accept a script iff it is consumed exactly.     *)
+AskPick(q, c, opts, pk, tt) ==
+  LET c1 == [c EXCEPT !.opts = opts, !.pk = pk] IN
+  IF ~c.om THEN Sig(c1, "pick")
+  ELSE IF c.orc = <<>> THEN Sig(c1, "orcshort")
+  ELSE IF Head(c.orc) > PickCount(c1) THEN Sig(c1, "orcbad")
+  ELSE PickStep(q, [c1 EXCEPT !.orc = Tail(c.orc), !.wl = Append(c.wl, PickWeight(c1, Head(c.orc)) \o <<Head(c.orc)>>)],
+                Head(c.orc), tt)
+
+RECURSIVE Micro(_, _, _), Run(_, _, _), ScenStep(_, _, _, _), StepSubs(_, _, _, _, _)
 
 \* one time step of a scenario instance (step 1 of the procedure, items a-e):
 \* time limit; compose block for one step; terminate-when conditions
-ScenStep(q, I, tt) ==
+\* (orc: the oracle script for the picks of this step; the result carries what is left of it and the weights used)
+ScenStep(q, I, tt, orc) ==
   LET d == Sdef(q, I.s) IN
   IF d.termAfter # <<>> /\ LimitReached(q, I.el, d.termAfter[1], d.termAfter[2])
-  THEN [inst |-> StopInst(I), out |-> <<>>, sig |-> "stop"]
+  THEN [inst |-> StopInst(I), out |-> <<>>, sig |-> "stop", orc |-> orc, wl |-> <<>>]
   ELSE LET I1 == [I EXCEPT !.el = I.el + 1]
+           c0 == [I1.cor EXCEPT !.out = <<>>, !.sig = "run", !.acts = <<>>, !.orc = orc, !.wl = <<>>]
            c == IF d.hascompose
-                THEN (IF I1.cor.sig = "yield" THEN Run(q, Walk(q, [I1.cor EXCEPT !.out = <<>>, !.sig = "run", !.acts = <<>>], 1, tt), tt)
-                      ELSE Run(q, [I1.cor EXCEPT !.out = <<>>, !.sig = "run", !.acts = <<>>], tt))
+                THEN (IF I1.cor.sig = "yield" THEN Run(q, Walk(q, c0, 1, tt), tt) ELSE Run(q, c0, tt))
                 ELSE I1.cor
-           I2 == [I1 EXCEPT !.cor = c]
+           I2 == [I1 EXCEPT !.cor = [c EXCEPT !.orc = <<>>, !.wl = <<>>]]
            out == IF d.hascompose THEN c.out ELSE <<>>
-       IN IF d.hascompose /\ c.sig \in {"reject", "guardpre", "guardinv"} THEN [inst |-> I2, out |-> out, sig |-> c.sig]
-          ELSE IF d.hascompose /\ c.sig = "termsim" THEN [inst |-> StopInst(I2), out |-> out, sig |-> "termsim"]
-          ELSE IF d.hascompose /\ c.sig \in {"terminate", "done"} THEN [inst |-> StopInst(I2), out |-> out, sig |-> "stop"]
+           left == IF d.hascompose THEN c.orc ELSE orc
+           wl == IF d.hascompose THEN c.wl ELSE <<>>
+           R(inst, sig) == [inst |-> inst, out |-> out, sig |-> sig, orc |-> left, wl |-> wl]
+       IN IF d.hascompose /\ c.sig \in {"reject", "guardpre", "guardinv"} \cup OrcFail THEN R(I2, c.sig)
+          ELSE IF d.hascompose /\ c.sig = "termsim" THEN R(StopInst(I2), "termsim")
+          ELSE IF d.hascompose /\ c.sig \in {"terminate", "done"} THEN R(StopInst(I2), "stop")
           ELSE IF \E i \in 1..Len(d.termWhen) : Tab(q, d.termWhen[i], tt)
-               THEN [inst |-> StopInst(I2), out |-> out, sig |-> "stop"]
-               ELSE [inst |-> I2, out |-> out, sig |-> "cont"]
+               THEN R(StopInst(I2), "stop")
+               ELSE R(I2, "cont")
 
 \* step the sub-scenarios of a `do` in order; those that go on are kept
-StepSubs(q, subs, i, tt) ==
-  IF i > Len(subs) THEN [subs |-> <<>>, out |-> <<>>, sig |-> "cont"]
-  ELSE LET r == ScenStep(q, subs[i], tt) IN
-       IF r.sig \in {"termsim", "reject", "guardpre", "guardinv"}
-       THEN [subs |-> <<r.inst>> \o SubSeq(subs, i + 1, Len(subs)), out |-> r.out, sig |-> r.sig]
-       ELSE LET rest == StepSubs(q, subs, i + 1, tt) IN
+StepSubs(q, subs, i, tt, orc) ==
+  IF i > Len(subs) THEN [subs |-> <<>>, out |-> <<>>, sig |-> "cont", orc |-> orc, wl |-> <<>>]
+  ELSE LET r == ScenStep(q, subs[i], tt, orc) IN
+       IF r.sig \in {"termsim", "reject", "guardpre", "guardinv"} \cup OrcFail
+       THEN [subs |-> <<r.inst>> \o SubSeq(subs, i + 1, Len(subs)), out |-> r.out, sig |-> r.sig, orc |-> r.orc, wl |-> r.wl]
+       ELSE LET rest == StepSubs(q, subs, i + 1, tt, r.orc) IN
             [subs |-> (IF r.sig = "cont" THEN <<r.inst>> ELSE <<>>) \o rest.subs,
-             out |-> r.out \o rest.out, sig |-> rest.sig]
+             out |-> r.out \o rest.out, sig |-> rest.sig, orc |-> rest.orc, wl |-> r.wl \o rest.wl]
 
 \* one micro-step of a coroutine whose signal is "run"
 Micro(q, c, tt) ==
@@ -264,9 +300,15 @@ Micro(q, c, tt) ==
                        LET en == Enabled(q, s[2], tt) IN
                        IF en = <<>> THEN Sig(c1, "reject")
                        ELSE IF Len(en) = 1 THEN StartBeh(q, c1, en[1][1], tt)
-                       ELSE [c1 EXCEPT !.sig = "pick", !.opts = en, !.pk = "items"]
-                  [] s[1] = "shuffle" -> Push(c1, FShuf(s[2]))
-                  [] s[1] = "rand" -> [c1 EXCEPT !.sig = "pick", !.opts = <<s[2], s[3], s[4]>>, !.pk = "rand"]
+                       ELSE AskPick(q, c1, en, "items", tt)
+                  [] s[1] = "shuffle" -> Push(c1, FShuf(s[2], FALSE))
+                  [] s[1] = "schoose" ->     \* `do choose` over scenarios, in a compose block
+                       LET en == SEnabled(q, s[2], tt) IN
+                       IF en = <<>> THEN Sig(c1, "reject")
+                       ELSE IF Len(en) = 1 THEN StartSubs(q, c1, <<en[1][1]>>, tt)
+                       ELSE AskPick(q, c1, en, "sitems", tt)
+                  [] s[1] = "sshuffle" -> Push(c1, FShuf(s[2], TRUE))
+                  [] s[1] = "rand" -> AskPick(q, c1, <<s[2], s[3], s[4]>>, "rand", tt)
                   [] s[1] = "try" -> EnterBlock(q, Push(c1, [FTry(s[3]) EXCEPT !.act = -1] @@ [body |-> s[2]]), tt)
                   [] s[1] \in {"abort", "break", "continue"} -> Unwind(c1, s[1])
                   [] s[1] = "return" ->
@@ -283,15 +325,16 @@ Micro(q, c, tt) ==
   [] f.k = "idle" -> [c EXCEPT !.sig = "yield", !.acts = <<>>, !.chk = FALSE]
   [] f.k = "shuf" ->
         IF f.items = <<>> THEN AfterInvoke(q, Pop(c), tt)
-        ELSE LET en == Enabled(q, f.items, tt) IN
+        ELSE LET en == IF f.sk THEN SEnabled(q, f.items, tt) ELSE Enabled(q, f.items, tt) IN
              IF en = <<>> THEN Sig(c, "reject")
              ELSE IF Len(en) = 1
-                  THEN StartBeh(q, SetTop(c, [f EXCEPT !.items = SelectSeq(f.items, LAMBDA it : it # en[1])]), en[1][1], tt)
-                  ELSE [c EXCEPT !.sig = "pick", !.opts = en, !.pk = "items"]
+                  THEN LET c1 == SetTop(c, [f EXCEPT !.items = SelectSeq(f.items, LAMBDA it : it # en[1])]) IN
+                       IF f.sk THEN StartSubs(q, c1, <<en[1][1]>>, tt) ELSE StartBeh(q, c1, en[1][1], tt)
+                  ELSE AskPick(q, c, en, IF f.sk THEN "sitems" ELSE "items", tt)
   [] f.k = "try" -> Pop(c)    \* (not reached: blocks are dispatched from the seq case)
   [] f.k = "par" ->   \* sub-scenarios: drop those stopped meanwhile, step the others in order
-        LET r == StepSubs(q, SelectSeq(f.subs, LAMBDA I : I.on), 1, tt)
-            c1 == [c EXCEPT !.out = c.out \o r.out]
+        LET r == StepSubs(q, SelectSeq(f.subs, LAMBDA I : I.on), 1, tt, c.orc)
+            c1 == [c EXCEPT !.out = c.out \o r.out, !.orc = r.orc, !.wl = c.wl \o r.wl]
         IN IF r.sig # "cont" THEN Sig(SetTop(c1, [f EXCEPT !.subs = r.subs]), r.sig)
            ELSE IF r.subs = <<>>
                 THEN (LET c2 == Pop(c1) IN
@@ -307,20 +350,13 @@ Resume(q, c, tt) ==
      ELSE IF c.sig = "yield" THEN Run(q, Walk(q, c0, 1, tt), tt)
      ELSE Run(q, c0, tt)
 
-\* continue after a random pick: item i of the offered options
-AfterPick(q, c, i, tt) ==
-  LET c0 == [c EXCEPT !.sig = "run", !.opts = <<>>, !.pk = "none", !.out = <<>>] IN
-  IF c.pk = "rand"
-  THEN Run(q, Emit(c0, <<"rnd", c.opts[3], c.opts[1] + i - 1, tt>>), tt)
-  ELSE LET it == c.opts[i] IN
-       IF c0.st # <<>> /\ Top(c0).k = "shuf"
-       THEN Run(q, StartBeh(q, SetTop(c0, [Top(c0) EXCEPT !.items = SelectSeq(Top(c0).items, LAMBDA x : x # it)]), it[1], tt), tt)
-       ELSE Run(q, StartBeh(q, c0, it[1], tt), tt)
-PickCount(c) == IF c.pk = "rand" THEN c.opts[2] - c.opts[1] + 1 ELSE Len(c.opts)
-PickWeight(c, i) == IF c.pk = "rand" THEN Rat!Of(1, c.opts[2] - c.opts[1] + 1)
-                    ELSE Rat!Of(c.opts[i][2], SumW(c.opts))
+\* a behaviour continues after its random pick: item i of the offered options
+AfterPick(q, c, i, tt) == Run(q, PickStep(q, [c EXCEPT !.out = <<>>], i, tt), tt)
 
 \* ------------------------------------------------------------------ the time step
+\* oracle scripts for one ScenarioStep / MonitorResume: at most C.orcmax picks among at most C.orcalt alternatives
+\* (both 0 / 1 for cases whose compose blocks and monitors make no random pick: then Scripts = {<<>>})
+Scripts == UNION {[1..n -> 1..C.orcalt] : n \in 0..C.orcmax}
 NA == Len(C.agents)
 Agents == {a \in 1..NA : C.agents[a] # 0}
 NoInst == [s |-> 0, el |-> 0, on |-> FALSE, cor |-> Sig(NewCor(<<>>), "done"), mons |-> <<>>]
@@ -361,12 +397,15 @@ Setup ==
 ScenarioStep ==
   /\ phase = "scenario"
   /\ IF ~top.on THEN phase' = "record" /\ UNCHANGED <<top, ev, flag, ending>>
-     ELSE LET r == ScenStep(cid, top, t) IN
-          /\ top' = r.inst /\ ev' = ev \o r.out
+     ELSE \E sc \in Scripts :     \* the random picks made by compose blocks in this step
+          LET r == ScenStep(cid, top, t, sc) IN
+          /\ r.sig \notin OrcFail /\ r.orc = <<>>
+          /\ top' = r.inst /\ ev' = ev \o r.out /\ ws' = ws \o r.wl
           /\ IF r.sig \in Rejections THEN EndRej(r.sig) /\ UNCHANGED flag
              ELSE /\ phase' = "record" /\ ending' = ending
                   /\ flag' = IF r.sig \in {"stop", "termsim"} THEN <<"scenarioComplete">> ELSE flag
-  /\ UNCHANGED <<cid, t, beh, ai, pend, nexec, ntraj, ws, pick>>
+  /\ top.on \/ ws' = ws
+  /\ UNCHANGED <<cid, t, beh, ai, pend, nexec, ntraj, pick>>
 
 \* step 2: record initial (at time 0) and record, a scenario's own before its sub-scenarios'; one trajectory state
 RECURSIVE RecEvents(_, _, _, _), RecEventsSeq(_, _, _, _)
@@ -389,39 +428,47 @@ Record ==
 (* of its sub-scenarios.  require false -> rejection; terminate -> the scenario that           *)
 (* instantiated the monitor stops (after all monitors have run); terminate simulation ->       *)
 (* termination flag, the remaining monitors still run.                                          *)
-RECURSIVE RunMons(_, _, _), RunMonList(_, _, _, _), RunMonSubs(_, _, _, _)
-RunMonList(q, ms, i, tt) ==   \* -> [ms, out, termsim, endscen, rej]
-  IF i > Len(ms) THEN [ms |-> ms, out |-> <<>>, termsim |-> FALSE, endscen |-> FALSE, rej |-> ""]
-  ELSE LET c == Resume(q, ms[i], tt) IN
-       IF c.sig \in Rejections
-       THEN [ms |-> [ms EXCEPT ![i] = c], out |-> c.out, termsim |-> FALSE, endscen |-> FALSE, rej |-> c.sig]
-       ELSE LET r == RunMonList(q, [ms EXCEPT ![i] = c], i + 1, tt) IN
+\* (orc / wl: the oracle script for the monitors' random picks, threaded through the walk as in ScenStep)
+RECURSIVE RunMons(_, _, _, _), RunMonList(_, _, _, _, _), RunMonSubs(_, _, _, _, _)
+RunMonList(q, ms, i, tt, orc) ==   \* -> [ms, out, termsim, endscen, rej, orc, wl]
+  IF i > Len(ms) THEN [ms |-> ms, out |-> <<>>, termsim |-> FALSE, endscen |-> FALSE, rej |-> "", orc |-> orc, wl |-> <<>>]
+  ELSE LET c == Resume(q, [ms[i] EXCEPT !.orc = orc, !.wl = <<>>], tt)
+           cs == [c EXCEPT !.orc = <<>>, !.wl = <<>>]      \* as stored
+       IN
+       IF c.sig \in Rejections \cup OrcFail
+       THEN [ms |-> [ms EXCEPT ![i] = cs], out |-> c.out, termsim |-> FALSE, endscen |-> FALSE, rej |-> c.sig,
+             orc |-> c.orc, wl |-> c.wl]
+       ELSE LET r == RunMonList(q, [ms EXCEPT ![i] = cs], i + 1, tt, c.orc) IN
             [r EXCEPT !.out = c.out \o r.out, !.termsim = r.termsim \/ c.sig = "termsim",
-                      !.endscen = r.endscen \/ c.sig = "terminate"]
-RunMonSubs(q, subs, i, tt) ==  \* -> [subs, out, termsim, rej]
-  IF i > Len(subs) THEN [subs |-> subs, out |-> <<>>, termsim |-> FALSE, rej |-> ""]
-  ELSE LET r == RunMons(q, subs[i], tt) IN
-       IF r.rej # "" THEN [subs |-> [subs EXCEPT ![i] = r.inst], out |-> r.out, termsim |-> FALSE, rej |-> r.rej]
-       ELSE LET rest == RunMonSubs(q, [subs EXCEPT ![i] = r.inst], i + 1, tt) IN
-            [rest EXCEPT !.out = r.out \o rest.out, !.termsim = rest.termsim \/ r.termsim]
-RunMons(q, I, tt) ==   \* -> [inst, out, termsim, ended, rej]
-  IF ~I.on THEN [inst |-> I, out |-> <<>>, termsim |-> FALSE, ended |-> FALSE, rej |-> ""]
-  ELSE LET a == RunMonList(q, I.mons, 1, tt)
+                      !.endscen = r.endscen \/ c.sig = "terminate", !.wl = c.wl \o r.wl]
+RunMonSubs(q, subs, i, tt, orc) ==  \* -> [subs, out, termsim, rej, orc, wl]
+  IF i > Len(subs) THEN [subs |-> subs, out |-> <<>>, termsim |-> FALSE, rej |-> "", orc |-> orc, wl |-> <<>>]
+  ELSE LET r == RunMons(q, subs[i], tt, orc) IN
+       IF r.rej # "" THEN [subs |-> [subs EXCEPT ![i] = r.inst], out |-> r.out, termsim |-> FALSE, rej |-> r.rej,
+                           orc |-> r.orc, wl |-> r.wl]
+       ELSE LET rest == RunMonSubs(q, [subs EXCEPT ![i] = r.inst], i + 1, tt, r.orc) IN
+            [rest EXCEPT !.out = r.out \o rest.out, !.termsim = rest.termsim \/ r.termsim, !.wl = r.wl \o rest.wl]
+RunMons(q, I, tt, orc) ==   \* -> [inst, out, termsim, ended, rej, orc, wl]
+  IF ~I.on THEN [inst |-> I, out |-> <<>>, termsim |-> FALSE, ended |-> FALSE, rej |-> "", orc |-> orc, wl |-> <<>>]
+  ELSE LET a == RunMonList(q, I.mons, 1, tt, orc)
            I1 == [I EXCEPT !.mons = a.ms]
-       IN IF a.rej # "" THEN [inst |-> I1, out |-> a.out, termsim |-> FALSE, ended |-> FALSE, rej |-> a.rej]
-          ELSE LET b == RunMonSubs(q, SubsOf(I1), 1, tt)
+       IN IF a.rej # "" THEN [inst |-> I1, out |-> a.out, termsim |-> FALSE, ended |-> FALSE, rej |-> a.rej, orc |-> a.orc, wl |-> a.wl]
+          ELSE LET b == RunMonSubs(q, SubsOf(I1), 1, tt, a.orc)
                    I2 == IF SubsOf(I1) = <<>> THEN I1 ELSE SetSubs(I1, b.subs)
-               IN IF b.rej # "" THEN [inst |-> I2, out |-> a.out \o b.out, termsim |-> FALSE, ended |-> FALSE, rej |-> b.rej]
+               IN IF b.rej # "" THEN [inst |-> I2, out |-> a.out \o b.out, termsim |-> FALSE, ended |-> FALSE, rej |-> b.rej,
+                                      orc |-> b.orc, wl |-> a.wl \o b.wl]
                   ELSE [inst |-> IF a.endscen THEN StopInst(I2) ELSE I2, out |-> a.out \o b.out,
-                        termsim |-> a.termsim \/ b.termsim, ended |-> a.endscen, rej |-> ""]
+                        termsim |-> a.termsim \/ b.termsim, ended |-> a.endscen, rej |-> "", orc |-> b.orc, wl |-> a.wl \o b.wl]
 MonitorResume ==
   /\ phase = "monitors"
-  /\ LET r == RunMons(cid, top, t) IN
-       /\ top' = r.inst /\ ev' = ev \o r.out
+  /\ \E sc \in Scripts :      \* the random picks made by monitors in this step
+     LET r == RunMons(cid, top, t, sc) IN
+       /\ r.rej \notin OrcFail /\ r.orc = <<>>
+       /\ top' = r.inst /\ ev' = ev \o r.out /\ ws' = ws \o r.wl
        /\ IF r.rej # "" THEN EndRej(r.rej) /\ UNCHANGED flag
           ELSE /\ phase' = "termination" /\ ending' = ending
                /\ flag' = IF r.termsim \/ r.ended THEN <<"terminatedByMonitor">> ELSE flag
-  /\ UNCHANGED <<cid, t, beh, ai, pend, nexec, ntraj, ws, pick>>
+  /\ UNCHANGED <<cid, t, beh, ai, pend, nexec, ntraj, pick>>
 
 \* step 4: termination flag, terminate-simulation-when conditions (of every running scenario), step limit
 RECURSIVE AnyTermSim(_, _, _), AnyTermSimSeq(_, _, _)
@@ -481,7 +528,9 @@ Pick ==
 \* steps 6-9
 ExecuteActions ==
   /\ phase = "actions"
-  /\ ev' = Append(ev, <<"exec", t, pend>>) /\ nexec' = nexec + 1
+  \* (the entries of the action dict are in schedule order: "the order of agents in the dict should be
+  \*  respected in case the order of actions matters"; every scheduled agent with a behaviour has one)
+  /\ ev' = Append(ev, <<"exec", t, pend, SelectSeq(Sched, LAMBDA a : C.agents[a] # 0)>>) /\ nexec' = nexec + 1
   /\ phase' = "simstep"
   /\ UNCHANGED <<cid, t, beh, top, ai, pend, ntraj, flag, ending, ws, pick>>
 SimulatorStep ==
